@@ -142,6 +142,17 @@ CHECKS = {
         note='Trusted: E8/E2 (tables report their highest seqno; the highest seqno of a key wins), journal reader by contract (bytes: C03/C15). Outside: lsm-tree table/version recovery, recover_keyspaces directory scan (stubbed), > 2 keyspaces / 2 batches.',
         technique='MIR symbolic execution of both recovery loops over a symbolic journal/keyspace state + z3; native reopen replay against a reference map',
     ),
+    'C10': dict(
+        category='model_checking',
+        text='MIR symbolic execution of JournalManager::maintenance from an arbitrary queue (2 sealed journals x 2 watermarks; lsn, deleted flag and persisted seqno of every keyspace symbolic): z3 decides that each unlink removes the '
+             'oldest queued journal and only when every watermark is satisfied (keyspace deleted, or persisted seqno present and >= lsn), that queue and byte counter follow, and that a failed unlink changes nothing; '
+             'of build_seqno_map (one watermark per keyspace with memtable data = its highest memtable seqno), rotate_journal (sealed file queued with those watermarks), the straggler list, and the worker flush tick '
+             '(watermark capture and rotation under one hold of the journal lock; maintenance after the flush). Recovery re-registration of sealed journals is decided in C04. '
+             'Counterexamples are replayed natively: journal rotation forced at every flush tick, 7 multi-keyspace programs with lagging / deleted / cleared keyspaces; a process-crash image after every maintenance step must recover every acknowledged write; journal count returns to 1.',
+        design_ref='DESIGN.md §5 C10',
+        note='Trusted: E8 (FIFO flush, persisted seqno = highest seqno in tables), C14 (apply under the journal lock), F2 (remove_file). Outside: > 2 queued journals / 2 watermarks, schedules finer than lock events, directory-entry durability of the unlink.',
+        technique='MIR symbolic execution from an arbitrary (invariant-free) queue state + z3 validity queries; native crash-image replay',
+    ),
     'C11': dict(
         category='model_checking',
         text='The MIR of Database::recover is executed over a symbolic recovered state: 2 keyspaces with symbolic ids and symbolic persisted/highest seqnos (meta keyspace included), '
